@@ -26,8 +26,8 @@ func init() {
 
 type c13Case struct {
 	coreCase
-	Repeats  int    `json:"repeats"`
-	DelaySeed uint64 `json:"delay_seed"` // seeds per-call delays in the fake services (perturbed scheduling)
+	Repeats   int    `json:"repeats"`
+	DelaySeed uint64 `json:"delay_seed"`          // seeds per-call delays in the fake services (perturbed scheduling)
 	FaultSvc  int    `json:"fault_svc,omitempty"` // 1+i: service i answers every follow-up lookup batch with one error per request (message names the looked-up id)
 }
 
@@ -38,7 +38,9 @@ type c13Obs struct {
 	raw    interface{}
 }
 
-func (o c13Obs) key() string { return o.Data + "\n" + strings.Join(o.Errors, "|") + "\n" + strings.Join(o.Calls, "\n") }
+func (o c13Obs) key() string {
+	return o.Data + "\n" + strings.Join(o.Errors, "|") + "\n" + strings.Join(o.Calls, "\n")
+}
 
 // c13Check: the same operation, repeated on the same gateway (Go randomises map iteration per
 // range) and on freshly built gateways (merge / routing-table maps rebuilt), with perturbed
